@@ -493,4 +493,9 @@ theorem fn_sees_what_caller_sees (st0 : Store) (locals : Ctx) (es : List (List C
   unfold showVisible popCtx
   simp only [hc, List.drop_succ_cons, List.drop_zero, visible, hcx]
 
+theorem evalValueG_hashMap (ast : List Ast) (env : Env) : evalValueG hashMapI ast env = evalValue ast env := by
+  unfold evalValueG evalValue
+  rw [evalG_hashMap_aux]
+  simp only [intoValueG_hashMap]
+
 end YashModel.Arith
